@@ -152,7 +152,16 @@ def check_parts(W, rec, parts, boundary: str, paths=("events", "encode_multipart
         if nt:
             rec.nontrivial(("a", repr(parts), boundary))
         with rec.guard(case, "C02/events"):
-            enc = M.MultipartEncoder(bnd)
+            enc0 = M.MultipartEncoder(bnd)
+            ENC_CHUNKS = []
+
+            class enc:  # noqa: N801 - records every chunk the encoder hands out
+                @staticmethod
+                def send_event(ev):
+                    out = enc0.send_event(ev)
+                    ENC_CHUNKS.append(out)
+                    return out
+
             body = enc.send_event(M.Preamble(data=b""))
             for kind, name, filename, ctype, value in parts:
                 hdrs = DS.Headers([("Content-Type", ctype)] if ctype else [])
@@ -187,11 +196,25 @@ def check_parts(W, rec, parts, boundary: str, paths=("events", "encode_multipart
             body += enc.send_event(M.Epilogue(data=b""))
             contracts.flush(rec, case, "C02")
             dec = M.MultipartDecoder(bnd)
-            dec.receive_data(body)
-            dec.receive_data(None)
+            piped = (len(parts) + len(boundary)) % 2 == 1
+            if piped:
+                # the encoder's output piped into the decoder as it is produced: every send_event() result (some of them
+                # empty) is handed over at once, events are drained in between
+                rec.observe("encoder_piped_into_decoder")
+                feed = list(ENC_CHUNKS) + [None]
+            else:
+                feed = [body, None]
             got, cur = [], None
+            fi = 0
+            dec.receive_data(feed[0])
             while True:
                 e = dec.next_event()
+                if isinstance(e, M.NeedData):
+                    fi += 1
+                    if fi >= len(feed):
+                        raise ValueError("decoder asks for data after the end of the body")
+                    dec.receive_data(feed[fi])
+                    continue
                 if isinstance(e, M.File):
                     cur = ["file", e.name, e.filename, e.headers.get("content-type"), b""]
                     got.append(cur)
@@ -407,6 +430,33 @@ def check_urlencoded(W, rec, pairs):
                 rec.violation("C02/test_client:urlencoded-differs", f"expected {exp!r} got form {seen_c.get('form')!r} args {seen_c.get('args')!r}", case, monitor="roundtrip")
 
 
+def near_copy_beyond_a_read(W, rec, rng):
+    """Uploads longer than the parser's 64 KiB read whose content holds a near-copy of the boundary and only one kind of
+    line break (or none at all): the closing delimiter is not in the buffer yet when the near-copy is looked at."""
+    M, FP, T, Request, DS = W
+    boundary = rand_boundary(rng)
+    bnd = boundary.encode()
+    for nl in (b"", b"\r", b"\n", b"\r\n"):
+        for lead in (0, 7, 70000):
+            content = b"L" * lead + nl + b"x" * rng.choice([5, 70000]) + b"--" + bnd + rng.choice([b"! ", b"", b"-x"]) + b"y" * 70000 + nl + b"tail"
+            parts = [("field", "note", None, None, "before"), ("file", "up", "big.bin", "application/octet-stream", content), ("field", "after", None, None, "z")]
+            case = {"path": "near-copy-beyond-a-read", "boundary": boundary, "newline": repr(nl), "lead": lead, "content_len": len(content)}
+            rec.case()
+            rec.nontrivial(("near-copy", boundary, nl, lead, len(content)))
+            rec.observe("uploads_with_a_near_copy_beyond_one_read")
+            with rec.guard(case, "C02/near-copy"):
+                md = DS.MultiDict()
+                for kind, name, filename, ctype, value in parts:
+                    md.add(name, DS.FileStorage(io.BytesIO(value), filename=filename, name=name, content_type=ctype) if kind == "file" else value)
+                b2, data = T.encode_multipart(md, boundary=boundary)
+                form, files = FP.MultiPartParser().parse(io.BytesIO(data), b2.encode(), len(data))
+                got = files["up"].stream.read() if "up" in files else None
+                if got != content or form.get("note") != "before" or form.get("after") != "z":
+                    where = next((i for i in range(min(len(got or b""), len(content))) if got[i] != content[i]), None) if got else None
+                    rec.violation("C02/encode_multipart:file-payload-differs", f"upload of {len(content)} bytes came back as {len(got) if got is not None else None} bytes, first difference at {where}: "
+                                  f"{(got or b'')[max(0, (where or 0) - 5):(where or 0) + 12]!r} vs {content[max(0, (where or 0) - 5):(where or 0) + 12]!r}; fields {dict(form)!r}", case, monitor="roundtrip")
+
+
 def concurrent_shared_parser(W, rec, rng, rounds, prefix="C02"):
     """Schedule: ONE FormDataParser / MultiPartParser object serving two requests at once (a parser kept on the
     application).  The two input streams hand out a few bytes per read and rendezvous at every read, so the two
@@ -587,6 +637,8 @@ def run(shard, rec, rng):
                 rec.observe("header_straddles_64k_cases")
                 check_parts(W, rec, plist(pad), boundary, paths=("encode_multipart",))
     concurrent_shared_parser(W, rec, rng, 3)
+    if shard["index"] % 4 == 0:
+        near_copy_beyond_a_read(W, rec, rng)
     # ---- random part lists
     for i in range(cfg["random_lists"]):
         boundary = rand_boundary(rng)
